@@ -56,6 +56,19 @@ let rec pres2_s = function
   | P2Bug s -> "BUG " ^ sn s
 (* ---- end audit round 1 ---- *)
 
+(* ---- round 3 c05d: pwire3 (Parse/LaxWire3.v), whole packets: ` |R ...`
+   `acc <packet>` | `rej <error> @@ <packet in front>` | `rejnet (<error>)@<tag> net=<lax net> @@ <packet in front>` |
+   `fb <error> inc=<0|1> @@ <packet in front> -> <resumed decoding>`; <packet> = `link=.. exts=[..] net=.. tr=..` *)
+let vpkt p = let s = vres (VOk p) in String.sub s 3 (String.length s - 3)
+let rec pres3_s = function
+  | P2Acc p -> "acc " ^ vpkt p
+  | P2Rej (p, e) -> "rej " ^ slice_err e ^ " @@ " ^ vpkt p
+  | P2RejNet (p, n, tag, e) ->
+    "rejnet (" ^ slice_err e ^ ")@" ^ layer_tag tag ^ " net=" ^ lvnet1 n ^ " @@ " ^ vpkt p
+  | P2Fb (p, e, inc, r) -> "fb " ^ slice_err e ^ " inc=" ^ b01 inc ^ " @@ " ^ vpkt p ^ " -> " ^ pres3_s r
+  | P2Bug s -> "BUG " ^ sn s
+(* ---- end round 3 c05d ---- *)
+
 (* generic result printing *)
 let pres f = function
   | Ok a -> "ok " ^ f a
@@ -78,18 +91,18 @@ let run (line : string) : string =
       lvres (lvres_of (LaxSlicedPacket.from_ethernet bs)) ^ " || "
       ^ vres (vres_of (SlicedPacket.from_ethernet bs)) ^ " | " ^ vres (wire_ethernet bs)
       ^ " |L " ^ lvres (lwire_ethernet bs) ^ " |P " ^ pres_s (pwire_ethernet bs)
-      ^ " |N " ^ pres2_s (pwire2_ethernet bs)
+      ^ " |N " ^ pres2_s (pwire2_ethernet bs) ^ " |R " ^ pres3_s (pwire3_ethernet bs)
     else if entry = "ip" then
       lvres (lvres_of (LaxSlicedPacket.from_ip bs)) ^ " || "
       ^ vres (vres_of (SlicedPacket.from_ip bs)) ^ " | " ^ vres (wire_from_ip bs)
       ^ " |L " ^ lvres (lwire_from_ip bs) ^ " |P " ^ pres_s (pwire_from_ip bs)
-      ^ " |N " ^ pres2_s (pwire2_from_ip bs)
+      ^ " |N " ^ pres2_s (pwire2_from_ip bs) ^ " |R " ^ pres3_s (pwire2_from_ip bs)
     else if starts entry "et:" then begin
       let et = arg entry 3 in
       lvres (lvres_of (LaxSlicedPacket.from_ether_type et bs)) ^ " || "
       ^ vres (vres_of (SlicedPacket.from_ether_type et bs)) ^ " | " ^ vres (wire_ether_type bs et)
       ^ " |L " ^ lvres (lwire_ether_type bs et) ^ " |P " ^ pres_s (pwire_ether_type bs et)
-      ^ " |N " ^ pres2_s (pwire2_ether_type bs et)
+      ^ " |N " ^ pres2_s (pwire2_ether_type bs et) ^ " |R " ^ pres3_s (pwire3_ether_type bs et)
     end
     else if entry = "lip" then
       pres (fun (ip, st) ->
